@@ -21,3 +21,7 @@ def run(tier, seed, verdict):
              "handles are a seeded mix of long-lived ones and fresh lookups",
         assumptions=["LinkContainer.extend with a valid prefix before an invalid item is left open",
                      "dimension links are covered by the NixArray-side check once available (not here)"])
+
+
+def replay(path):
+    return mr.replay_file(path)
